@@ -350,7 +350,11 @@ def _check_traces(I, c, key, outcome, exc):
     """Trace predicates: native predicates over the event list of this path."""
     for (name, fn) in getattr(c, 'traces_', []):
         try:
-            r = fn(I.path.trace, outcome, exc)
+            import inspect as _insp
+            if len(_insp.signature(fn).parameters) >= 4:
+                r = fn(I.path.trace, outcome, exc, I.path)
+            else:
+                r = fn(I.path.trace, outcome, exc)
         except Exception as e:
             r = "trace predicate crashed: %s: %s" % (type(e).__name__, e)
         if r is True or r is None:
